@@ -46,44 +46,32 @@ func (r CharRecipe) n() *big.Int {
 // Unfortunately, we can't take the log until the very end, so we will
 // be dealing with some very large numbers.
 func n(allowed set.Set, required set.Set, length int) *big.Int {
-	// totalCount is the total number of permutations possible when a
-	// password of length n is generated from the set R, which is the
-	// union of all sets in the password recipe.
+	// R is the union of all sets in the password recipe: the alphabet
+	// candidates are drawn from.
 	R := unionAll(allowed.Union(required))
-	totalCount := &big.Int{}
-	totalCount.Exp(toBigInt(R.Cardinality()), toBigInt(length), nil) // #nosec G105
 
-	// Each of these sets of sets represents a password recipe that we
-	// will reject and thus must subtract from our total count.
-	// We want to reject all subsets of the set of required sets except
-	// the set of required sets itself.
-	// For example, if L and D are required, rejectedSubsets
-	// will contain {L} and {D} and will not contain {L, D}.
-	// Optional sets are not part of this at all because they will
-	// simply be tacked on at the end.
-	powerSet := required.PowerSet()
-	rejectedSubsets := set.NewSet()
-	for el := range powerSet.Iter() {
-		elSet, ok := el.(set.Set)
-		if ok && !required.Equal(elSet) {
-			rejectedSubsets.Add(elSet)
+	// Inclusion-exclusion over the required sets: for every subset M of
+	// the required sets, count the candidates that miss every set in M,
+	// i.e. that are built from R without the union of M, and add or
+	// subtract that according to the parity of M. (Partitioning candidates
+	// by "exactly which required sets are hit" instead is only correct
+	// when the required sets are pairwise disjoint.)
+	totalCount := &big.Int{}
+	for el := range required.PowerSet().Iter() {
+		missed, ok := el.(set.Set)
+		if !ok {
+			continue
+		}
+		avoiding := R.Difference(unionAll(missed))
+		count := &big.Int{}
+		count.Exp(toBigInt(avoiding.Cardinality()), toBigInt(length), nil) // #nosec G105
+		if missed.Cardinality()%2 == 1 {
+			totalCount.Sub(totalCount, count)
+		} else {
+			totalCount.Add(totalCount, count)
 		}
 	}
-
-	// When requiredSets is {{}} (it is a set containing only the empty set),
-	// powerSet(requiredSets) will also be {{}};
-	// thus, rejectedSubsets will be empty, the reducing
-	// function below will not run, and rejectedCount will be 0,
-	// terminating the recursion.
-
-	rejectedCount := sumAll(
-		rejectedSubsets,
-		func(subset set.Set) *big.Int {
-			return n(allowed, subset, length)
-		},
-	)
-
-	return totalCount.Sub(totalCount, rejectedCount)
+	return totalCount
 }
 
 func toBigInt(i int) *big.Int {
